@@ -8,6 +8,7 @@ package main
 
 import (
 	"fmt"
+	"math/rand"
 	"os"
 	"path/filepath"
 	"strings"
@@ -114,6 +115,8 @@ func runHistory(id int, seed int64, nops int, nTrig int, base string, pool *stor
 	nimg := 0
 	step := 0
 	broken := false
+	nsample := 0
+	ra := rand.New(rand.NewSource(seed*7907 + int64(id)*7349 + 11)) // assertions on crash images (own stream: the histories stay as they were)
 	for {
 		var op Op
 		if replay != nil {
@@ -210,6 +213,11 @@ func runHistory(id int, seed int64, nops int, nTrig int, base string, pool *stor
 			snap(nsteps, -1, "", nil)
 		}
 		prefix := append([]Op{}, h.Ops...)
+		small := len(pool.Headers) <= 1000
+		var ftoksBefore []int64
+		if small {
+			ftoksBefore = filterTokens(e, pool)
+		}
 		ok := e.Exec(&op)
 		e.BF.OnStep, e.FF.OnStep, e.BF.BeforeWrite, e.FF.BeforeWrite, e.DB.OnCommit = nil, nil, nil, nil, nil
 		for _, im := range imgs {
@@ -227,8 +235,45 @@ func runHistory(id int, seed int64, nops int, nTrig int, base string, pool *stor
 					ftok = 2150
 				}
 			}
+			// a sample of the images (every filter-append image, a third of
+			// the others) is reopened a second time WITH a header state
+			// assertion that must not trigger: the stored value at a height
+			// both the before and the after state hold, or a height beyond
+			// the file
+			var adir string
+			if small && len(ftoksBefore) > 0 && (op.Kind == "fwrite" || nsample%3 == 0) {
+				adir = im.dir + "-a"
+				os.RemoveAll(adir)
+				if err := storeh.CopyDir(im.dir, adir); err != nil {
+					panic(err)
+				}
+			}
+			nsample++
 			post := evalImage(im.dir, pool, ftok, probeToks(&op))
 			os.RemoveAll(im.dir)
+			if adir != "" {
+				keep := int64(len(ftoksBefore))
+				if op.Kind == "frollback" && keep > 1 {
+					keep--
+				}
+				var as Assertion
+				if ra.Intn(3) == 0 {
+					as = Assertion{int64(len(ftoksBefore)) + int64(len(op.Es)) + 1 + ra.Int63n(3), 1999999}
+				} else {
+					hh := ra.Int63n(keep)
+					if ra.Intn(2) == 0 {
+						hh = keep - 1 // the last entry every outcome keeps
+					}
+					as = Assertion{hh, ftoksBefore[hh]}
+				}
+				opened, apost := evalImageA(adir, pool, ftok, &as, probeToks(&op)...)
+				os.RemoveAll(adir)
+				cop := op
+				h.SCases = append(h.SCases, SCase{
+					ID: id*1000 + 500 + len(h.SCases), Kind: 4, AH: as.H, AV: as.V, K: im.k, Torn: im.torn, With: true,
+					Kinds: append([]int64{}, kinds...), Opened: opened, Post: apost, Real: true, NP: len(prefix), Cop: &cop,
+				})
+			}
 			h.Cases = append(h.Cases, Case{
 				ID: id*1000 + len(h.Cases), Prefix: prefix, Cop: op, K: im.k, Torn: im.torn,
 				Kinds: append([]int64{}, kinds...), Post: post,
@@ -442,6 +487,12 @@ func main() {
 				key = fmt.Sprintf("startup:first:filter=%v:%s", cs.Filter, cls)
 			case 3:
 				key = fmt.Sprintf("startup:first-chainservice:%s", cls)
+			case 4:
+				hc := "stored-value"
+				if cs.AV == 1999999 {
+					hc = "beyond-file"
+				}
+				key = fmt.Sprintf("crash+assertion:%s:%s:%s", cs.Cop.Kind, hc, cls)
 			case 1:
 				hc := "mid"
 				if cs.AH == 0 {
